@@ -7,7 +7,8 @@ O3 == O2 + 155
 O4 == O3 + NLongSeqs
 O5 == O4 + 1
 O6 == O5 + NNearMiss
-Count == O6 + NPlusExtra
+O7 == O6 + NPlusExtra
+Count == O7 + NSepMembers
 ItemAt(g) ==
   IF g <= O1 THEN AllSeqAt(g)
   ELSE IF g <= O2 THEN OrderingAt(g - O1)
@@ -15,7 +16,8 @@ ItemAt(g) ==
   ELSE IF g <= O4 THEN LongSeqAt(g - O3)
   ELSE IF g <= O5 THEN NoDomainTypeDoc
   ELSE IF g <= O6 THEN NearMissAt(g - O5)
-  ELSE PlusExtraAt(g - O6)
+  ELSE IF g <= O7 THEN PlusExtraAt(g - O6)
+  ELSE SepMemberAt(g - O7)
 Histories == IF "VERIF_TIER" \in DOMAIN IOEnv /\ IOEnv.VERIF_TIER = "thorough" THEN 300 ELSE 40
 VARIABLE n
 INSTANCE GenBase
